@@ -83,5 +83,9 @@ Probes(w, s) == <<
     [id |-> "plain", x |-> Dec(FALSE, <<1, 2>>, <<5>>)],
     [id |-> "plain-neg", x |-> Dec(TRUE, <<2>>, <<2, 5>>)],
     [id |-> "near-carry", x |-> Dec(FALSE, IF w - s > 1 THEN Nines(w - s - 1) ELSE <<0>>, Nines(s))],
-    [id |-> "ulp", x |-> Dec(FALSE, <<0>>, Zeros(s - 1) \o <<1>>)] >>
+    [id |-> "ulp", x |-> Dec(FALSE, <<0>>, Zeros(s - 1) \o <<1>>)],
+    \* exact decimal ties one place beyond the scale, with significant digits in front: no binary double holds them exactly, so a
+    \* loader that rounds the double instead of its decimal text goes the wrong way (0.0079835 at scale 6 is stored 0.007984)
+    [id |-> "tie-mid", x |-> Dec(FALSE, <<0>>, (IF s >= 4 THEN Zeros(s - 4) \o <<7, 9, 8, 3>> ELSE Zeros(s)) \o <<5>>)],
+    [id |-> "tie-big", x |-> Dec(TRUE, <<1, 9>>, (IF s >= 3 THEN Zeros(s - 3) \o <<8, 4, 0>> ELSE Zeros(s)) \o <<5>>)] >>
 =============================================================================
